@@ -215,6 +215,19 @@ theorem SStr.write_spec (s : SStr) (text cs : List Char) (h : Coh s text) (he : 
     refine ⟨key s.rollover _ hro.1 (by rw [hro.2.1, he]) rfl rfl (by simp [hro.2.1]), by simp [he], hro.2.2⟩
   · exact ⟨key s _ h he rfl rfl rfl, by simp [he], rfl⟩
 
+/-- `writelines`: the loop of writes (each with its own rollover decision) appends the joined pieces -/
+theorem SStr.writelines_spec (ss : List (List Char)) (s : SStr) (text : List Char) (h : Coh s text)
+    (he : s.tell = text.length) (hch : 0 < s.chunk) :
+    Coh (ss.foldl SStr.write s) (text ++ ss.flatten) ∧ (ss.foldl SStr.write s).tell = (text ++ ss.flatten).length ∧
+    (ss.foldl SStr.write s).chunk = s.chunk := by
+  induction ss generalizing s text with
+  | nil => simpa using ⟨h, he⟩
+  | cons cs ss ih =>
+    have hw := SStr.write_spec s text cs h he hch
+    have := ih (s.write cs) (text ++ cs) hw.1 hw.2.1 (by rw [hw.2.2]; exact hch)
+    simp only [List.foldl_cons, List.flatten_cons, ← List.append_assoc]
+    exact ⟨this.1, this.2.1, by rw [this.2.2, hw.2.2]⟩
+
 theorem SStr.readlines_spec (s : SStr) (text : List Char) (h : Coh s text) :
     s.readlines.1 = splitL false (text.drop s.tell) ∧ Coh s.readlines.2 text ∧
     s.readlines.2.tell = text.length ∧ s.readlines.2.chunk = s.chunk := by
@@ -303,5 +316,30 @@ theorem firstLine_noExotic (l : List Char) (h : noExotic l = true) : firstLine t
     have hcs : noExotic cs = true := by
       simp only [noExotic, List.all_cons, Bool.and_eq_true] at h; exact h.2
     simp only [firstLine, isBrk_noExotic c hc, ih hcs]
+
+/-- enough: the line io.StringIO cuts holds no exotic boundary -/
+theorem firstLine_noExotic_line (l : List Char) (h : noExotic (firstLine false l) = true) :
+    firstLine true l = firstLine false l := by
+  induction l with
+  | nil => rfl
+  | cons c cs ih =>
+    by_cases hcr : c = '\r'
+    · subst hcr; simp [firstLine]
+    · by_cases hb : isBrk false c = true
+      · have hb' : isBrk true c = true := by
+          simp only [isBrk, Bool.or_eq_true] at hb ⊢
+          exact Or.inl (by simpa using hb)
+        simp [firstLine, hcr, hb, hb']
+      · have hfl : firstLine false (c :: cs) = c :: firstLine false cs := by simp [firstLine, hcr, hb]
+        rw [hfl] at h
+        have hc : isExotic c = false := by
+          simp only [noExotic, List.all_cons, Bool.and_eq_true, Bool.not_eq_true'] at h; exact h.1
+        have hcs : noExotic (firstLine false cs) = true := by
+          simp only [noExotic, List.all_cons, Bool.and_eq_true] at h ⊢; exact h.2
+        simp only [firstLine, isBrk_noExotic c hc, ih hcs]
+
+theorem noExotic_of_sublist_take (l : List Char) (n : Nat) (h : noExotic l = true) : noExotic (l.take n) = true := by
+  simp only [noExotic, List.all_eq_true] at *
+  intro c hc; exact h c (List.mem_of_mem_take hc)
 
 end C18
